@@ -383,11 +383,16 @@ def oracle(c, obs):
 # ---- evidence helpers -------------------------------------------------------------------------------
 
 def nontrivial(c, o):
-    if isinstance(o, Err):
+    """A rule spread an input over at least two sub-periods, or refused a contradiction."""
+    if isinstance(o, Err) or c["var"]["rule"] == "none":
         return False
-    for s, st in zip(c["steps"], o):
-        if s.get("role") == "long" and (st[0] == 0 or (isinstance(st[0], Err) and st[0].kind == "EValue")):
+    size = 0
+    for st in o:
+        if isinstance(st[0], Err) and st[0].kind == "EValue" and len(st[1]) > 0:
             return True
+        if st[0] == 0 and len(st[1]) >= size + 2:
+            return True
+        size = len(st[1])
     return False
 
 
@@ -803,7 +808,7 @@ def generate(rng, tier):
     variants = [(vt, defu, rule) for vt in ("float", "int") for defu in (MONTH, DAY, YEAR, WK, WD)
                 for rule in ("div", "dis")]
     # A. structured histories on long periods tiled exactly
-    per = {MONTH: 70, DAY: 34, YEAR: 24, WK: 20, WD: 26}
+    per = {MONTH: 80, DAY: 40, YEAR: 30, WK: 24, WD: 30}
     for vt, defu, rule in variants:
         var = {"vt": vt, "def": defu, "rule": rule, "end": None}
         for _ in range(per[defu] * scale):
